@@ -1,12 +1,425 @@
-//! C11 — ops evaluated on the real code and the generator of their inputs.
-#![allow(unused_imports, dead_code, clippy::all)]
+//! C11 — `complement`, `converse`, `union`, `filter_vertices` on the real code (and the
+//! operation part of C17: the same ops are run under several `taskset` masks).
+//!
+//!   ops_complement D        => obs(D) obs(R) unchanged invol
+//!   ops_converse   D        => obs(D) obs(R) unchanged invol
+//!   ops_union      A B      => obs(A) obs(B) obs(R) unchanged comm idemA idemB
+//!   ops_union3     A B C    => obs(A) obs(B) obs(C) obs((A u B) u C) assoc
+//!   ops_filter     D pred   => obs(D) obs(R) unchanged
+//!
+//! `obs` = `[order [vertices] [arcs]]` (`graphs::observe`; weighted arcs as `[u v w]`),
+//! `unchanged` = operands `==` their pre-call clones, the other flags are the algebraic
+//! identities evaluated with `==` on the real results.  `pred` ∈
+//! `[ge k] [lt k] [mod m r] [in [..]] none all`.
+#![allow(clippy::all)]
 
-use crate::graphs::{self, Desc};
+use crate::graphs::{self, observe, Desc};
 use crate::rng::Rng;
 use crate::value::V;
+use graaf::{
+    AdjacencyListWeighted, Arcs, ArcsWeighted, Complement, Converse, FilterVertices, Order, Union,
+    Vertices,
+};
+use std::collections::BTreeSet;
 
-pub fn eval(_op: &str, _args: &[V]) -> Option<Vec<V>> {
-    None
+trait ToI128: Copy {
+    fn to_i128(self) -> i128;
+}
+impl ToI128 for usize {
+    fn to_i128(self) -> i128 {
+        self as i128
+    }
+}
+impl ToI128 for isize {
+    fn to_i128(self) -> i128 {
+        self as i128
+    }
 }
 
-pub fn gen(_rng: &mut Rng, _thorough: bool, _emit: &mut dyn FnMut(String)) {}
+fn observe_w<W: ToI128>(d: &AdjacencyListWeighted<W>) -> V {
+    V::L(vec![
+        V::u(d.order()),
+        V::us(d.vertices()),
+        V::L(d
+            .arcs_weighted()
+            .map(|(u, v, w)| V::L(vec![V::u(u), V::u(v), V::I(w.to_i128())]))
+            .collect()),
+    ])
+}
+
+fn complement_case<D>(d: D) -> Vec<V>
+where
+    D: Complement + Clone + PartialEq + Order + Vertices + Arcs,
+{
+    let before = d.clone();
+    let r = d.complement();
+    let unchanged = d == before;
+    let invol = r.complement() == d;
+    vec![observe(&d), observe(&r), V::bool(unchanged), V::bool(invol)]
+}
+
+fn converse_case<D>(d: D) -> Vec<V>
+where
+    D: Converse + Clone + PartialEq + Order + Vertices + Arcs,
+{
+    let before = d.clone();
+    let r = d.converse();
+    let unchanged = d == before;
+    let invol = r.converse() == d;
+    vec![observe(&d), observe(&r), V::bool(unchanged), V::bool(invol)]
+}
+
+fn converse_case_w<W>(d: AdjacencyListWeighted<W>) -> Vec<V>
+where
+    W: ToI128 + PartialEq,
+{
+    let before = d.clone();
+    let r = d.converse();
+    let unchanged = d == before;
+    let invol = r.converse() == d;
+    vec![observe_w(&d), observe_w(&r), V::bool(unchanged), V::bool(invol)]
+}
+
+fn union_case<D>(a: D, b: D) -> Vec<V>
+where
+    D: Union + Clone + PartialEq + Order + Vertices + Arcs,
+{
+    let (a0, b0) = (a.clone(), b.clone());
+    let r = a.union(&b);
+    let unchanged = a == a0 && b == b0;
+    let comm = r == b.union(&a);
+    let idem_a = a.union(&a) == a;
+    let idem_b = b.union(&b) == b;
+    vec![
+        observe(&a),
+        observe(&b),
+        observe(&r),
+        V::bool(unchanged),
+        V::bool(comm),
+        V::bool(idem_a),
+        V::bool(idem_b),
+    ]
+}
+
+fn union3_case<D>(a: D, b: D, c: D) -> Vec<V>
+where
+    D: Union + Clone + PartialEq + Order + Vertices + Arcs,
+{
+    let l = a.union(&b).union(&c);
+    let r = a.union(&b.union(&c));
+    vec![observe(&a), observe(&b), observe(&c), observe(&l), V::bool(l == r)]
+}
+
+fn parse_pred(v: &V) -> Option<Box<dyn Fn(usize) -> bool>> {
+    match v {
+        V::A(a) if a == "none" => Some(Box::new(|_| false)),
+        V::A(a) if a == "all" => Some(Box::new(|_| true)),
+        V::L(xs) if !xs.is_empty() => match (xs[0].as_atom()?, xs.len()) {
+            ("ge", 2) => {
+                let k = xs[1].as_usize()?;
+                Some(Box::new(move |v| v >= k))
+            }
+            ("lt", 2) => {
+                let k = xs[1].as_usize()?;
+                Some(Box::new(move |v| v < k))
+            }
+            ("mod", 3) => {
+                let m = xs[1].as_usize()?;
+                let r = xs[2].as_usize()?;
+                if m == 0 {
+                    return None;
+                }
+                Some(Box::new(move |v| v % m == r))
+            }
+            ("in", 2) => {
+                let set: BTreeSet<usize> = xs[1].as_usizes()?.into_iter().collect();
+                Some(Box::new(move |v| set.contains(&v)))
+            }
+            _ => None,
+        },
+        _ => None,
+    }
+}
+
+pub fn eval(op: &str, args: &[V]) -> Option<Vec<V>> {
+    match op {
+        "ops_complement" => {
+            let [d] = args else { return None };
+            let d = Desc::parse(d)?;
+            match d.repr.as_str() {
+                "al" => Some(complement_case(d.build_al())),
+                "am" => Some(complement_case(d.build_am())),
+                "mx" => Some(complement_case(d.build_mx())),
+                "el" => Some(complement_case(d.build_el())),
+                _ => None,
+            }
+        }
+        "ops_converse" => {
+            let [d] = args else { return None };
+            let d = Desc::parse(d)?;
+            match d.repr.as_str() {
+                "al" => Some(converse_case(d.build_al())),
+                "am" => Some(converse_case(d.build_am())),
+                "mx" => Some(converse_case(d.build_mx())),
+                "el" => Some(converse_case(d.build_el())),
+                "wu" => Some(converse_case_w(d.build_wu())),
+                "wi" => Some(converse_case_w(d.build_wi())),
+                _ => None,
+            }
+        }
+        "ops_union" => {
+            let [a, b] = args else { return None };
+            let a = Desc::parse(a)?;
+            let b = Desc::parse(b)?;
+            if a.repr != b.repr {
+                return None;
+            }
+            match a.repr.as_str() {
+                "al" => Some(union_case(a.build_al(), b.build_al())),
+                "am" => Some(union_case(a.build_am(), b.build_am())),
+                "mx" => Some(union_case(a.build_mx(), b.build_mx())),
+                "el" => Some(union_case(a.build_el(), b.build_el())),
+                _ => None,
+            }
+        }
+        "ops_union3" => {
+            let [a, b, c] = args else { return None };
+            let a = Desc::parse(a)?;
+            let b = Desc::parse(b)?;
+            let c = Desc::parse(c)?;
+            if a.repr != b.repr || b.repr != c.repr {
+                return None;
+            }
+            match a.repr.as_str() {
+                "al" => Some(union3_case(a.build_al(), b.build_al(), c.build_al())),
+                "am" => Some(union3_case(a.build_am(), b.build_am(), c.build_am())),
+                "mx" => Some(union3_case(a.build_mx(), b.build_mx(), c.build_mx())),
+                "el" => Some(union3_case(a.build_el(), b.build_el(), c.build_el())),
+                _ => None,
+            }
+        }
+        "ops_filter" => {
+            let [d, p] = args else { return None };
+            let d = Desc::parse(d)?;
+            if d.repr != "am" {
+                return None;
+            }
+            let p = parse_pred(p)?;
+            let g = d.build_am();
+            let before = g.clone();
+            let r = g.filter_vertices(|v| p(v));
+            let unchanged = g == before;
+            Some(vec![observe(&g), observe(&r), V::bool(unchanged)])
+        }
+        _ => None,
+    }
+}
+
+// ---------------------------------------------------------------------------------------
+// generator
+// ---------------------------------------------------------------------------------------
+
+const UNW: [&str; 4] = ["al", "am", "mx", "el"];
+
+/// Largest order generated for a representation (the model of `EdgeList` is quadratic in the
+/// number of arcs; the threaded ones go above the core count).
+fn cap(repr: &str) -> usize {
+    match repr {
+        "el" => 40,
+        "mx" => 100,
+        _ => 130,
+    }
+}
+
+fn mk(repr: &str, n: usize, arcs: Vec<(usize, usize)>) -> Desc {
+    let k = arcs.len();
+    Desc { repr: repr.to_string(), verts: (0..n).collect(), arcs, weights: vec![1; k] }
+}
+
+/// A random description of order exactly `n`.
+fn desc_of_order(rng: &mut Rng, repr: &str, n: usize) -> Desc {
+    let (_f, arcs) = graphs::gen_arcs(rng, n);
+    mk(repr, n, arcs)
+}
+
+/// Relabel a contiguous description onto the given ascending id list (`am` only).
+fn relabel(d: &Desc, ids: &[usize]) -> Desc {
+    let arcs: Vec<(usize, usize)> = d.arcs.iter().map(|&(u, v)| (ids[u], ids[v])).collect();
+    let k = arcs.len();
+    Desc { repr: "am".to_string(), verts: ids.to_vec(), arcs, weights: vec![1; k] }
+}
+
+/// `n` distinct ascending ids below `bound`.
+fn sparse_ids(rng: &mut Rng, n: usize, bound: usize) -> Vec<usize> {
+    let mut all: Vec<usize> = (0..bound.max(n)).collect();
+    rng.shuffle(&mut all);
+    all.truncate(n);
+    all.sort_unstable();
+    all
+}
+
+/// A random `am` description, a third of them with non-contiguous ids.
+fn gen_am(rng: &mut Rng, max: usize) -> Desc {
+    match rng.below(3) {
+        0 => graphs::gen_am_sparse(rng, max).1,
+        1 => {
+            let (_f, d) = graphs::gen_desc(rng, "am", max);
+            let n = d.order();
+            let ids = sparse_ids(rng, n, 3 * n + 5);
+            relabel(&d, &ids)
+        }
+        _ => graphs::gen_desc(rng, "am", max).1,
+    }
+}
+
+fn gen_any(rng: &mut Rng, repr: &str) -> Desc {
+    if repr == "am" {
+        gen_am(rng, cap(repr))
+    } else {
+        graphs::gen_desc(rng, repr, cap(repr)).1
+    }
+}
+
+fn gen_pred(rng: &mut Rng, d: &Desc, kind: usize) -> V {
+    let hi = d.verts.last().copied().unwrap_or(0) + 1;
+    match kind {
+        0 => V::atom("none"),
+        1 => V::atom("all"),
+        2 => V::L(vec![V::atom("ge"), V::u(rng.below(hi + 1))]),
+        3 => V::L(vec![V::atom("lt"), V::u(rng.below(hi + 1))]),
+        4 => {
+            let m = 2 + rng.below(3);
+            V::L(vec![V::atom("mod"), V::u(m), V::u(rng.below(m))])
+        }
+        _ => {
+            let mut keep: Vec<usize> = d.verts.iter().copied().filter(|_| rng.chance(1, 2)).collect();
+            if rng.chance(1, 4) {
+                keep.push(hi + 3); // an id that is not a vertex
+            }
+            V::L(vec![V::atom("in"), V::us(keep)])
+        }
+    }
+}
+
+/// Pair for `union`: equal order (half of the time), or independent orders.
+fn gen_pair(rng: &mut Rng, repr: &str, mode: usize) -> (Desc, Desc) {
+    if repr == "am" {
+        let a = gen_am(rng, cap(repr));
+        let b = match mode % 4 {
+            // the same key set: every key is an equal-key pair, also at the partition boundaries
+            0 => {
+                let n = a.order();
+                let c = desc_of_order(rng, "am", n);
+                relabel(&c, &a.verts)
+            }
+            // interleaved / shifted keys
+            2 => {
+                let n = 1 + rng.below(a.order() + 3);
+                let c = desc_of_order(rng, "am", n);
+                let off = rng.below(3);
+                let ids: Vec<usize> = (0..n).map(|i| 2 * i + off).collect();
+                relabel(&c, &ids)
+            }
+            _ => gen_am(rng, cap(repr)),
+        };
+        if rng.chance(1, 2) { (a, b) } else { (b, a) }
+    } else {
+        let a = graphs::gen_desc(rng, repr, cap(repr)).1;
+        let b = if rng.chance(1, 2) {
+            desc_of_order(rng, repr, a.order())
+        } else {
+            graphs::gen_desc(rng, repr, cap(repr)).1
+        };
+        (a, b)
+    }
+}
+
+/// All digraphs on `n` vertices (arc subsets of the `n(n-1)` ordered pairs).
+fn all_digraphs(n: usize) -> Vec<Vec<(usize, usize)>> {
+    let pairs: Vec<(usize, usize)> =
+        (0..n).flat_map(|u| (0..n).filter(move |&v| v != u).map(move |v| (u, v))).collect();
+    (0..(1usize << pairs.len()))
+        .map(|code| pairs.iter().enumerate().filter(|(i, _)| code >> i & 1 == 1).map(|(_, &p)| p).collect())
+        .collect()
+}
+
+pub fn gen(rng: &mut Rng, thorough: bool, emit: &mut dyn FnMut(String)) {
+    // (1) exhaustive small scope: every digraph on <= 3 vertices, every representation;
+    //     thorough: also every pair of them for union (orders equal and different).
+    let small: Vec<(usize, Vec<(usize, usize)>)> =
+        (1..=3).flat_map(|n| all_digraphs(n).into_iter().map(move |a| (n, a))).collect();
+    for repr in UNW {
+        for (n, arcs) in &small {
+            if !thorough && *n == 3 && rng.below(8) != 0 {
+                continue;
+            }
+            let d = mk(repr, *n, arcs.clone()).to_v();
+            emit(format!("ops_complement {d}"));
+            emit(format!("ops_converse {d}"));
+        }
+        for (n1, a1) in &small {
+            for (n2, a2) in &small {
+                let keep = if thorough { *n1 + *n2 < 6 || rng.below(8) == 0 } else { rng.below(60) == 0 };
+                if keep {
+                    emit(format!("ops_union {} {}", mk(repr, *n1, a1.clone()).to_v(), mk(repr, *n2, a2.clone()).to_v()));
+                }
+            }
+        }
+    }
+    // (2) orders around the thread counts (rows below / equal / just above / far above `t`,
+    //     not multiples of the chunk size) for the three threaded operations
+    let ladder: &[usize] = if thorough {
+        &[1, 2, 3, 4, 5, 7, 8, 9, 12, 13, 14, 15, 16, 17, 18, 23, 31, 32, 33, 47, 48, 49, 63, 64, 65, 97, 113, 127, 128, 129, 130]
+    } else {
+        &[1, 2, 3, 4, 5, 15, 16, 17, 33, 47, 49, 65, 113, 130]
+    };
+    for &n in ladder {
+        let a = desc_of_order(rng, "al", n);
+        emit(format!("ops_complement {}", a.to_v()));
+        let m = ladder[rng.below(ladder.len())];
+        let b = desc_of_order(rng, "al", m);
+        emit(format!("ops_union {} {}", a.to_v(), b.to_v()));
+        // map union: n1 + n2 around the thread count; same key set and disjoint key ranges
+        let c = desc_of_order(rng, "am", n);
+        let e = desc_of_order(rng, "am", n);
+        emit(format!("ops_union {} {}", c.to_v(), e.to_v()));
+        let ids: Vec<usize> = (0..m).map(|i| n + 2 + i).collect();
+        let f = relabel(&desc_of_order(rng, "am", m), &ids);
+        emit(format!("ops_union {} {}", c.to_v(), f.to_v()));
+        emit(format!("ops_union {} {}", f.to_v(), c.to_v()));
+    }
+    // (3) random digraphs / pairs, every representation that implements the operation
+    let rounds = if thorough { 120 } else { 40 };
+    for round in 0..rounds {
+        for (ri, repr) in UNW.into_iter().enumerate() {
+            let d = gen_any(rng, repr);
+            emit(format!("ops_complement {}", d.to_v()));
+            let d = gen_any(rng, repr);
+            emit(format!("ops_converse {}", d.to_v()));
+            let (a, b) = gen_pair(rng, repr, round + ri);
+            emit(format!("ops_union {} {}", a.to_v(), b.to_v()));
+            if (round + ri) % 4 != 0 {
+                let (a, b) = gen_pair(rng, repr, round + ri + 1);
+                let c = if rng.chance(1, 2) { gen_any(rng, repr) } else { desc_of_order(rng, repr, a.order()) };
+                let c = if repr == "am" && rng.chance(1, 2) { relabel(&desc_of_order(rng, "am", a.order()), &a.verts) } else { c };
+                emit(format!("ops_union3 {} {} {}", a.to_v(), b.to_v(), c.to_v()));
+            }
+        }
+        // one more map union with unrelated key sets
+        let (a, b) = gen_pair(rng, "am", 4 * round + 1 + 2 * (round % 2));
+        emit(format!("ops_union {} {}", a.to_v(), b.to_v()));
+        // weighted converse
+        for _ in 0..3 {
+            let (_f, d) = graphs::gen_wdesc(rng, "wu", 100, 0, 1_000_000);
+            emit(format!("ops_converse {}", d.to_v()));
+            let (_f, d) = graphs::gen_wdesc(rng, "wi", 100, -1_000_000, 1_000_000);
+            emit(format!("ops_converse {}", d.to_v()));
+        }
+        // filter_vertices (AdjacencyMap only)
+        for kind in [0, 0, 1, 1, 2, 2, 3, 4, 4, 4, 5, 5, 5] {
+            let d = gen_am(rng, 130);
+            let p = gen_pred(rng, &d, kind);
+            emit(format!("ops_filter {} {p}", d.to_v()));
+        }
+    }
+}
